@@ -50,3 +50,60 @@ package badgerstore
 //@   requires qc.qs != nil && qc.qs.iq != nil
 //@   modifies alloc
 //@   ensures ref(evs) == 0 && imp(!isNil(err), !reset)
+//@
+//@ # ================================================================ store operations (C11, C12)
+//@ props C11 C12
+//@ ghostvar bcn int
+//@ ghostvar bcveto bool
+//@ # (chn/chid/chb/cha and callback.onChangeCB are declared in store/zz_contracts_verif.go)
+//@ # bcn: BeforeChange invocations
+//@ func callback.beforeCB(self ref, id string, before interface{}, after interface{}) (err error)
+//@   modifies ghost.bcn
+//@   ensures bcn == old(bcn) + 1
+//@
+//@ func (st *Store) callOnChange(id string, before interface{}, after interface{})
+//@   requires st != nil && forall(k, 0, len(st.onChange), st.onChange[k] != nil)
+//@   modifies ghost.chn, ghost.chid, ghost.chb, ghost.cha
+//@   callback cb onChangeCB
+//@   ensures each.once: chn == old(chn) + len(st.onChange)
+//@   ensures args: imp(len(st.onChange) > 0, same(chid, id) && same(chb, before) && same(cha, after))
+//@   loop 1 invariant -1 <= rangeindex && rangeindex < len(st.onChange) + 0 && chn == old(chn) + rangeindex + 1
+//@   loop 1 invariant imp(rangeindex >= 0, same(chid, id) && same(chb, before) && same(cha, after))
+//@ func (st *Store) callBeforeChange(id string, before interface{}, after interface{}) (err error)
+//@   requires st != nil && forall(k, 0, len(st.beforeChange), st.beforeChange[k] != nil)
+//@   modifies ghost.bcn
+//@   callback cb beforeCB
+//@   ensures all: imp(isNil(err), bcn == old(bcn) + len(st.beforeChange))
+//@   loop 1 invariant -1 <= rangeindex && rangeindex < len(st.beforeChange) + 0 && bcn == old(bcn) + rangeindex + 1
+//@
+//@ # getValue / setValue go through reflect and encoding: used through their contracts (assumed, see DESIGN)
+//@ func (st *Store) getValue(txn *badger.Txn, key []byte) (v interface{}, err error)
+//@   nobody
+//@   modifies alloc
+//@   ensures missing: imp(len(key) > 0 && !kvhas[keyid(bytes(key))], isErr(err, res.ErrNotFound))
+//@   ensures found: imp(isNil(err), kvhas[keyid(bytes(key))] && !isNil(v))
+//@ func (st *Store) setValue(txn *badger.Txn, key []byte, v interface{}) (err error)
+//@   nobody
+//@   modifies alloc, bytes, ghost.kvhas
+//@   ensures ok: imp(isNil(err), len(key) > 0 && kvhas == store(old(kvhas), keyid(old(bytes(key))), true))
+//@   ensures failed: imp(!isNil(err), kvhas == old(kvhas))
+//@   ensures empty: imp(len(key) == 0, !isNil(err))
+//@
+//@ pred txnOK(wt writeTxn) = wt.st != nil && wt.st.DB != nil && forall(k, 0, len(wt.st.onChange), wt.st.onChange[k] != nil) && forall(k, 0, len(wt.st.beforeChange), wt.st.beforeChange[k] != nil)
+//@     && len(wt.rname) == len(wt.st.prefix) + len(wt.id) && bytes(wt.rname)[0:len(wt.st.prefix)] == wt.st.prefix && bytes(wt.rname)[len(wt.st.prefix):] == wt.id
+//@ func writeTxn.Create$1(txn *badger.Txn) (err error)
+//@   requires txnOK(wt) && txn != nil
+//@   modifies ghost.kvhas, ghost.bcn, alloc, bytes
+//@   ensures dup: imp(old(len(wt.rname) > 0 && kvhas[keyid(bytes(wt.rname))]), isErr(err, store.ErrDuplicate))
+//@   ensures ok.absent: imp(isNil(err), !old(kvhas[keyid(bytes(wt.rname))]))
+//@   ensures ok.kv: imp(isNil(err), kvhas == store(old(kvhas), keyid(old(bytes(wt.rname))), true))
+//@   ensures ok.bc: imp(isNil(err), bcn == old(bcn) + len(wt.st.beforeChange))
+//@   ensures failed: imp(!isNil(err), kvhas == old(kvhas))
+//@ func (wt writeTxn) Create(v interface{}) (err error)
+//@   requires txnOK(wt)
+//@   modifies all
+//@   ensures dup: imp(old(len(wt.rname) > 0 && kvhas[keyid(bytes(wt.rname))]), isErr(err, store.ErrDuplicate) && kvhas == old(kvhas) && chn == old(chn))
+//@   ensures emptyid: imp(len(wt.id) == 0, !isNil(err) && kvhas == old(kvhas) && chn == old(chn))
+//@   ensures ok: imp(isNil(err), !old(kvhas[keyid(bytes(wt.rname))]) && kvhas == store(old(kvhas), keyid(old(bytes(wt.rname))), true) && chn == old(chn) + len(old(wt.st.onChange))
+//@       && imp(len(old(wt.st.onChange)) > 0, same(chid, wt.id) && isNil(chb) && same(cha, v)))
+//@   ensures failed: imp(!isNil(err), kvhas == old(kvhas) && chn == old(chn))
